@@ -129,6 +129,27 @@ def rule_e(ctx: Ctx) -> None:
             args = list(c.args[1:] if is_set else c.args) + [k.value for k in c.keywords if k.arg not in ("copy", "dialect", "append", "into", "prefix")]
             for a in args:
                 v = a.value if isinstance(a, ast.Starred) else a
+                # *[f(p) for p in xs] where f(p) can evaluate to p itself (bare p, `d.get(k, p)`, `p if .. else ..`): the elements of xs again
+                if isinstance(a, ast.Starred) and isinstance(v, (ast.ListComp, ast.GeneratorExp)) and len(v.generators) == 1 and isinstance(v.generators[0].iter, ast.Name) \
+                        and isinstance(v.generators[0].target, ast.Name):
+                    el, pv = v.elt, v.generators[0].target.id
+                    def may_be(e_: ast.AST) -> bool:
+                        if isinstance(e_, ast.Name):
+                            return e_.id == pv
+                        if isinstance(e_, ast.IfExp):
+                            # `p.copy() if isinstance(p, Expr) else p`: the un-copied arm only carries non-nodes
+                            if isinstance(e_.test, ast.Call) and call_name(e_.test) == "isinstance" and e_.test.args and norm(e_.test.args[0]) == pv:
+                                return may_be(e_.body)
+                            return may_be(e_.body) or may_be(e_.orelse)
+                        if isinstance(e_, ast.BoolOp):
+                            return any(may_be(x_) for x_ in e_.values)
+                        if isinstance(e_, ast.Call) and isinstance(e_.func, ast.Attribute) and e_.func.attr == "get" and len(e_.args) == 2:
+                            return may_be(e_.args[1])
+                        return False
+                    if may_be(el):
+                        how = f"{cn}(..., copy=False)" if copy_false else (f"new {cn}(...)" if is_ctor else f".{c.func.attr}(...)")
+                        uses.setdefault(v.generators[0].iter.id, []).append((c, how + " [*unpacked]"))
+                    continue
                 if isinstance(v, ast.Name) and v.id not in ("self", "cls"):
                     how = f"{cn}(..., copy=False)" if copy_false else (f"new {cn}(...)" if is_ctor else f".{c.func.attr}(...)")
                     # a starred parameter tuple (`*expressions`) or a plain variable holding nodes
@@ -176,7 +197,11 @@ def rule_e(ctx: Ctx) -> None:
                     if i == j or not nodes[i][0] or not nodes[j][0]:
                         continue
                     reach = g.reachable(nodes[i][0][0])
-                    if nodes[j][0][0] in reach and nodes[j][0][0] is not nodes[i][0][0]:
+                    if nodes[j][0][0] is nodes[i][0][0]:
+                        # two distinct calls evaluated by one statement (a chained builder): both run
+                        if i < j and not any(isinstance(p_, ast.IfExp) for p_ in (m.parent(nodes[i][1]), m.parent(nodes[j][1]))):
+                            shared = (nodes[i], nodes[j])
+                    elif nodes[j][0][0] in reach:
                         shared = (nodes[i], nodes[j])
             # reassignment of v between the two uses is not tracked: such code is reported and triaged
             if shared:
@@ -793,7 +818,118 @@ def rule_h(ctx: Ctx) -> None:
     ctx.min_instances("list_typed_arguments", n, 300)
 
 
-RULES = [rule_a, rule_b, rule_c, rule_d, rule_e, rule_f, rule_g, rule_h]
+def rule_i(ctx: Ctx) -> None:
+    ctx.rule("C08.i", "index maintenance in Expression.set: after an operation that shifts positions in a child list (pop / insert / slice assignment) every path to a return "
+                      "re-indexes the list (_set_parent called with the list itself, or a loop over its tail assigning .index) — linking only the written element leaves "
+                      "the following siblings with stale indexes")
+    from ..cfg import CFG, forward
+
+    f = ctx.repo.func(CORE, "Expression.set")
+    g = CFG(f.node)
+    LIST = "expressions"
+
+    def shifts(a: ast.AST) -> bool:
+        for x in walk_no_nested(a):
+            if isinstance(x, ast.Call) and isinstance(x.func, ast.Attribute) and norm(x.func.value) == LIST and x.func.attr in ("pop", "insert", "remove"):
+                return True
+            if isinstance(x, ast.Subscript) and isinstance(x.ctx, ast.Store) and norm(x.value) == LIST and isinstance(x.slice, ast.Slice):
+                return True
+        return False
+
+    def tr(nd, lab, s):
+        dirty, alias = s
+        a = nd.ast
+        if a is None:
+            return s
+        if nd.kind == "for":
+            # for v in expressions[index:]: v.index = ...
+            if LIST in norm(a.iter) and any(isinstance(x, ast.Attribute) and x.attr == "index" and isinstance(x.ctx, ast.Store) for b_ in a.body for x in ast.walk(b_)):
+                return (False, alias)
+            return s
+        if nd.kind in ("stmt", "with"):
+            if shifts(a):
+                dirty = True
+            if isinstance(a, ast.Assign) and len(a.targets) == 1 and isinstance(a.targets[0], ast.Name):
+                alias = alias | {a.targets[0].id} if norm(a.value) == LIST else alias - {a.targets[0].id}
+            for x in walk_no_nested(a):
+                if isinstance(x, ast.Call) and call_name(x) == "self._set_parent" and len(x.args) >= 2 and isinstance(x.args[1], ast.Name) and (x.args[1].id == LIST or x.args[1].id in alias):
+                    dirty = False
+        return (dirty, alias)
+
+    # path-sensitive over the (tiny) product of the two facts: a set of (dirty, aliases) pairs, joined by union
+    def tr_set(nd, lab, S):
+        return frozenset(tr(nd, lab, s1) for s1 in S)
+
+    IN_S = forward(g, frozenset({(False, frozenset())}), tr_set, lambda p, q: p | q)
+    IN = {k: ((any(d for d, _ in v), frozenset()) if v is not None else None) for k, v in IN_S.items()}
+    n = 0
+    shifting = [nd for nd in g.nodes if nd.kind in ("stmt", "with") and nd.ast is not None and shifts(nd.ast)]
+    ctx.require(bool(shifting), "anchor vanished: Expression.set no longer shifts child lists through `expressions`")
+    exits = [nd for nd in g.nodes if nd.kind == "stmt" and isinstance(nd.ast, ast.Return)] + [g.exit]
+    bad = None
+    for nd in exits:
+        # state on the edges into the exit / at the return
+        states = []
+        if nd is g.exit:
+            for p_, lab_ in nd.pred:
+                if IN_S.get(p_) is not None and not (p_.kind == "stmt" and isinstance(p_.ast, ast.Return)):
+                    states.extend(tr_set(p_, lab_, IN_S[p_]))
+        elif IN_S.get(nd) is not None:
+            states.extend(IN_S[nd])
+        for st_ in states:
+            n += 1
+            if st_[0]:
+                bad = nd
+    if bad is None:
+        ctx.ok(f"{f.key}|lists re-indexed on every path after a shift", {"shifting_statements": len(shifting), "exits_checked": n})
+    else:
+        node = bad.ast if bad.ast is not None else f.node
+        ctx.fail(f.module, node, f.key, node if bad.ast is not None else "fall-through exit",
+                 "a path shifts positions in the child list and reaches this exit without re-indexing the list: the siblings after the edited position keep their old "
+                 ".index, so a later pop()/replace() on one of them edits the wrong slot")
+
+
+REVIEWED_PARAM_EMBED = {
+    ("sqlglot.optimizer.simplify:_parenthesize_nested_connector", "exp.paren(expression, copy=False)"):
+        "returns the Paren wrapped around its parameter and every caller stores that result in place of the node: the node moves, it is not stored twice",
+}
+
+
+def rule_j(ctx: Ctx) -> None:
+    ctx.rule("C08.j", "optimizer helpers do not adopt their parameters blindly: a builder called with copy=False embeds its node arguments as they are, so inside an optimizer "
+                      "function it must not receive a bare parameter of that function (the function cannot know whether the caller's node is still stored elsewhere, "
+                      "e.g. a type annotation shared between nodes) unless the site is a reviewed move")
+    n = 0
+    for f in ctx.repo.all_funcs():
+        m = f.module
+        if not m.name.startswith("sqlglot.optimizer"):
+            continue
+        params = set(f.params) - {"self", "copy", "dialect", "cls"}
+        if not params:
+            continue
+        stored = {x.id for x in walk_no_nested(f.node) if isinstance(x, ast.Name) and isinstance(x.ctx, ast.Store)}
+        for c in walk_no_nested(f.node):
+            if not isinstance(c, ast.Call):
+                continue
+            cf = next((k.value for k in c.keywords if k.arg == "copy"), None)
+            if not (isinstance(cf, ast.Constant) and cf.value is False):
+                continue
+            n += 1
+            vals = list(c.args) + [k.value for k in c.keywords if k.arg != "copy"]
+            hit = next((v for v in vals if isinstance(v, ast.Name) and v.id in params and v.id not in stored), None)
+            inst = f"{f.key}|{norm(c, 90)}"
+            if hit is None:
+                ctx.ok(inst, None)
+            elif (f.key, norm(c, 90)) in REVIEWED_PARAM_EMBED:
+                ctx.ok(inst, {"call": norm(c, 90), "reviewed": REVIEWED_PARAM_EMBED[(f.key, norm(c, 90))]})
+            else:
+                ctx.fail(m, c, f.key, c, f"`{hit.id}` is a parameter of {f.name} and is embedded as is by a copy=False builder: if the caller's node is still stored elsewhere "
+                                         f"(type annotations are shared between nodes) it now lives in two places and records only one parent")
+    ctx.count("copy_false_calls_in_optimizer", n)
+    ctx.min_instances("copy_false_calls_in_optimizer", n, 40)
+
+
+RULES = [rule_a, rule_b, rule_c, rule_d, rule_e, rule_f, rule_g, rule_h, rule_i, rule_j]
 EXPLANATION = (
     "Who-may-write analysis over the whole package: every store to the tree representation (args items, parent/arg_key/"
     "index/_hash, raw mutation of alias-tracked child lists) is enumerated and must lie in the primitives, be a provably "
